@@ -162,6 +162,10 @@ def task_batch(task):
             w = gen_dag.pairwise_script(gen_dag.pairwise_space()[src[1]])
             o = gen.as_op(w)
             o["sid"] = "pair:%d" % src[1]
+        elif src[0] == "comp":
+            w = gen_dag.generate_components(random.Random(src[1]))
+            o = gen.as_op(w)
+            o["sid"] = "comp:%d" % src[1]
         elif src[0] == "dag":
             rng = random.Random(src[1])
             w = gen_dag.generate(rng)
@@ -212,8 +216,11 @@ def run(ctx):
     n_space = len(gen_dag.pairwise_space())
     pair_idx = rng.sample(range(n_space), min(n_space, 240 if quick else 12000))
     items += [("pair", i) for i in pair_idx]
+    comp_items = [("comp", rng.randrange(1 << 30)) for _ in range(300 if quick else 6000)]   # many small disconnected components, 9-14 statements
     items += [("corpus", e) for e in rng.sample(cps, min(n_corpus, len(cps)))]
     rng.shuffle(items)
+    # a family with its own share of the budget runs first instead of being diluted in the shuffle
+    items = comp_items[: (264 if quick else len(comp_items))] + items + comp_items[(264 if quick else len(comp_items)):]
     size = 12
     tasks = [{"items": items[i:i + size], "base": i} for i in range(0, len(items), size)]
     done = ctx.map("task_batch", tasks, min_tasks=24)
